@@ -204,7 +204,7 @@ theorem MxInv.lockWStart {s : Mx} (h : MxInv s) (t : Tid) (m : Mode) : MxInv (lo
           | [a], _, ht' => simp at ht'; rw [ht']
       have := h.addWrite t (Or.inl hsole)
       rw [addKey_of_mem ht] at this; exact this
-    · exact h
+    · split <;> exact h
   · split
     · rename_i ht hok
       have he := ((okWriter_iff s t).1 hok).1
